@@ -5,6 +5,8 @@ from mirq.pat import match, find, strip_refs
 from rules.c14 import field_index
 from rules.c10 import fold
 from rules import c05
+from mirq.paths import Paths, Unsupported, variant_of
+from mirq.canon import Canon
 
 PRIM = "embedded_graphics::primitives::"
 P = lambda i, n: ("param", i, n)
@@ -46,6 +48,7 @@ def run(ctx, rep):
     circle_is_ellipse(prog, rep)
     c05.rounded(prog, rep)   # corner quadrant tables (R05.2): zero radii / half-side radii go through the same quadrants
     c05.circle(prog, rep)
+    plane_sector_tables(prog, rep)
 
 
 def symmetry(prog, rep):
@@ -222,3 +225,122 @@ def _angle_value(v):
     if isinstance(cur, int):
         return cur / 65536.0
     return None
+
+
+# ---- R18.5 plane sector: complete decision tables (path summaries) --------------------------------------------------
+def _eval_summaries(summs, atoms, assign, subject=None, op=None):
+    """Result of a boolean / enum valued function given by path summaries under an assignment of its boolean atoms
+    (trees -> bool) and of the variant of `subject`.  Returns the set of results of the summaries whose facts are all
+    consistent with the assignment; 'unknown' if a fact is about something else."""
+    out = set()
+    for sm in summs:
+        ok = True
+        for f in sm.facts:
+            if f[0] in ("true", "false") and f[1] in atoms:
+                ok = ok and (assign[atoms.index(f[1])] == (f[0] == "true"))
+            elif f[0] == "variant" and subject is not None and f[1] == subject:
+                ok = ok and op in f[2]
+            else:
+                return {"unknown: %s" % (f,)}
+        if not ok:
+            continue
+        r = sm.ret
+        if r in atoms:
+            out.add(assign[atoms.index(r)])
+        elif r[0] == "const" and isinstance(r[1], bool):
+            out.add(r[1])
+        else:
+            vo = variant_of(r)
+            if vo is not None and not (r[2] and variant_of(r[2][0]) is None and vo[1] != "Some"):
+                out.add(vo[1] if not r[2] else "%s(%s)" % (vo[1], variant_of(r[2][0])[1] if variant_of(r[2][0]) else "?"))
+            else:
+                out.add("unknown result %s" % show(r, maxd=3))
+    return out
+
+
+OPS = {"Intersection": lambda a, b: a and b, "Union": lambda a, b: a or b, "EntirePlane": lambda a, b: True}
+
+
+def plane_sector_tables(prog, rep):
+    import itertools
+    PS = PRIM + "common::plane_sector::PlaneSector"
+    OP = PRIM + "common::plane_sector::Operation"
+    ex = prog.method1(OP, "execute", None)
+    names = [v["name"] for v in prog.adts[OP]["variants"]]
+    rep.check(sorted(names) == sorted(OPS), "R18.5", "Operation:variants", "Operation must have the variants %s; found %s" % (sorted(OPS), names))
+    P0 = Paths(prog)
+    Pin = Paths(prog, inline=lambda g: prog.is_new(g) or g.id == ex.id)
+    # execute(self, first, second)
+    try:
+        summs = P0.of(ex)
+        atoms = [P(2, "first"), P(3, "second")]
+        bad = []
+        for op in OPS:
+            for a, b in itertools.product((False, True), repeat=2):
+                got = _eval_summaries(summs, atoms, (a, b), P(1, "self"), op)
+                if got != {OPS[op](a, b)}:
+                    bad.append("%s.execute(%s, %s) = %s" % (op, a, b, sorted(map(str, got))))
+        rep.check(not bad, "R18.5", "Operation::execute", "execute must be first && second (Intersection), first || second (Union), true (EntirePlane): " + "; ".join(bad[:3]), at=ex.span, fn=ex.path)
+    except Unsupported as e:
+        rep.fail("R18.5", "Operation::execute", "cannot summarise: %s" % e, status="undecided", at=ex.span, fn=ex.path)
+    # contains(self, point) = operation.execute(left.check_side(point, Left), right.check_side(point, Right))
+    ct = prog.method1(PS, "contains", None)
+    fi = lambda n: ("field", P(1, "self"), field_index(prog, PS, n))
+    try:
+        summs = Pin.of(ct)
+        sides = []
+        for sm in summs:
+            for t in [f[1] for f in sm.facts if f[0] in ("true", "false")] + [sm.ret]:
+                if t[0] == "call" and t[1].endswith("::check_side") and t not in sides:
+                    sides.append(t)
+
+        def side_of(t):
+            vo = variant_of(t[3][2]) if len(t[3]) == 3 else None
+            return (t[3][0], vo[1] if vo else None, t[3][1])
+        want_sides = {(fi("half_plane_left"), "Left", P(2, "point")), (fi("half_plane_right"), "Right", P(2, "point"))}
+        ok = {side_of(t) for t in sides} == want_sides and len(sides) == 2
+        rep.check(ok, "R18.5", "PlaneSector::contains:sides", "contains must test the point against the left half plane on its Left side and the right half plane on its Right side; found %s" % [show(t, maxd=3) for t in sides], at=ct.span, fn=ct.path)
+        if ok:
+            bad = []
+            for op in OPS:
+                for a, b in itertools.product((False, True), repeat=2):
+                    got = _eval_summaries(summs, sides, (a, b), fi("operation"), op)
+                    if got != {OPS[op](a, b)}:
+                        bad.append("%s with sides (%s, %s) -> %s" % (op, a, b, sorted(map(str, got))))
+            rep.check(not bad, "R18.5", "PlaneSector::contains:table", "contains must combine the two half-plane tests with self.operation for all three operations (a shortcut valid for the intersection drops points of sweeps >= 180 degrees): " + "; ".join(bad[:3]), at=ct.span, fn=ct.path)
+    except Unsupported as e:
+        rep.fail("R18.5", "PlaneSector::contains:table", "cannot summarise: %s" % e, status="undecided", at=ct.span, fn=ct.path)
+    # point_type: None outside the outer sector, Fill inside the inner one, Stroke between
+    pt = prog.method1(PS, "point_type", None)
+    try:
+        summs = P0.of(pt)
+        execs = []
+        for sm in summs:
+            for t in [f[1] for f in sm.facts if f[0] in ("true", "false")]:
+                if t[0] == "call" and t[1].endswith("Operation::execute") and t not in execs:
+                    execs.append(t)
+        ok = len(execs) == 2 and all(t[3][0] == fi("operation") for t in execs)
+        dr = ("call", "*::distance", "_", (fi("half_plane_right"), P(2, "point")))
+        dl = ("call", "*::distance", "_", (fi("half_plane_left"), P(2, "point")))
+        it, ot = P(3, "inside_threshold"), P(4, "outside_threshold")
+        cn = Canon(prog)
+        forms = {}
+        for t in execs:
+            a, b = cn.tree(t[3][1]), cn.tree(t[3][2])
+            if match(a, ("bin", "Le", ("un", "Neg", ot), dr)) is not None and match(b, ("bin", "Le", dl, ot)) is not None:
+                forms["outer"] = t
+            if match(a, ("bin", "Le", it, dr)) is not None and match(b, ("bin", "Le", dl, ("un", "Neg", it))) is not None:
+                forms["inner"] = t
+        ok = ok and set(forms) == {"outer", "inner"}
+        rep.check(ok, "R18.5", "PlaneSector::point_type:tests", "point_type must evaluate self.operation on (right >= -outside, left <= outside) and on (right >= inside, left <= -inside); found %s" % [show(t, maxd=4) for t in execs], at=pt.span, fn=pt.path)
+        if ok:
+            atoms = [forms["outer"], forms["inner"]]
+            want = {(False, False): {"None"}, (False, True): {"None"}, (True, False): {"Some(Stroke)"}, (True, True): {"Some(Fill)"}}
+            bad = []
+            for asg, w in want.items():
+                got = _eval_summaries(summs, atoms, asg)
+                if {str(g) for g in got} != w:
+                    bad.append("outer=%s inner=%s -> %s" % (asg[0], asg[1], sorted(map(str, got))))
+            rep.check(not bad, "R18.5", "PlaneSector::point_type:table", "point_type must be None outside the outer sector, Fill inside the inner sector and Stroke between: " + "; ".join(bad[:3]), at=pt.span, fn=pt.path)
+    except Unsupported as e:
+        rep.fail("R18.5", "PlaneSector::point_type:table", "cannot summarise: %s" % e, status="undecided", at=pt.span, fn=pt.path)
